@@ -91,11 +91,15 @@ pub struct ExecCase {
     pub compile_twice: bool,
     /// only compile, do not execute (C12 on programs the model cannot vouch for)
     pub compile_only: bool,
+    /// ranges registered with register_allowed_memory: (offset, length) inside a page of real,
+    /// pattern-filled memory that the runner owns (used by the crash oracle of C05 only: the
+    /// reference model does not know these regions)
+    pub allowed: Vec<(u16, u16)>,
 }
 
 impl ExecCase {
     pub fn new(vm: VmKind, prog: Vec<u8>) -> ExecCase {
-        ExecCase { vm, prog, pkt: vec![], mbuff: vec![], pkt_at_end: true, mbuff_at_end: false, helpers: vec![], calc: None, budget: 1_000_000, compile_twice: false, compile_only: false }
+        ExecCase { vm, prog, pkt: vec![], mbuff: vec![], pkt_at_end: true, mbuff_at_end: false, helpers: vec![], calc: None, budget: 1_000_000, compile_twice: false, compile_only: false, allowed: vec![] }
     }
     pub fn to_json(&self) -> Value {
         json!({
@@ -110,6 +114,7 @@ impl ExecCase {
             "budget": self.budget,
             "compile_twice": self.compile_twice,
             "compile_only": self.compile_only,
+            "allowed": self.allowed.iter().map(|(o, l)| json!([o, l])).collect::<Vec<_>>(),
             "listing": crate::isa::listing(&self.prog, 60),
         })
     }
@@ -129,6 +134,7 @@ impl ExecCase {
             budget: v["budget"].as_u64().unwrap_or(1_000_000),
             compile_twice: v["compile_twice"].as_bool().unwrap_or(false),
             compile_only: v["compile_only"].as_bool().unwrap_or(false),
+            allowed: pairs(&v["allowed"]).into_iter().map(|(a, b)| (a as u16, b as u16)).collect(),
         }
     }
     pub fn hash(&self) -> u64 {
@@ -365,6 +371,7 @@ impl Arena {
 pub struct Runner {
     pkt: Arena,
     mbuff: Arena,
+    extra: Arena,
     shared: *mut Shared,
     pub forks: u64,
 }
@@ -413,7 +420,12 @@ pub fn registration_order(case: &ExecCase) -> Vec<(u32, u8)> {
 }
 
 macro_rules! configure_vm {
-    ($vm:expr, $case:expr) => {{
+    ($vm:expr, $case:expr, $extra:expr) => {{
+        for (o, l) in &$case.allowed {
+            let s = $extra as u64 + (*o as u64 % PAGE as u64);
+            let e = (s + *l as u64).min($extra as u64 + PAGE as u64);
+            $vm.register_allowed_memory(s..e);
+        }
         for (id, p) in &registration_order($case) {
             $vm.register_helper(*id, pool_fn(*p)).unwrap();
         }
@@ -568,7 +580,7 @@ impl Runner {
             let size = std::mem::size_of::<Shared>();
             let p = libc::mmap(std::ptr::null_mut(), size, libc::PROT_READ | libc::PROT_WRITE, libc::MAP_ANONYMOUS | libc::MAP_SHARED, -1, 0);
             assert!(p != libc::MAP_FAILED);
-            Runner { pkt: Arena::new(MAXBUF / PAGE, false), mbuff: Arena::new(MAXBUF / PAGE, false), shared: p as *mut Shared, forks: 0 }
+            Runner { pkt: Arena::new(MAXBUF / PAGE, false), mbuff: Arena::new(MAXBUF / PAGE, false), extra: Arena::new(1, false), shared: p as *mut Shared, forks: 0 }
         }
     }
 
@@ -583,6 +595,7 @@ impl Runner {
     unsafe fn reset_buffers(&self, case: &ExecCase) -> (*mut u8, *mut u8) {
         self.pkt.fill(0xa5);
         self.mbuff.fill(0x5a);
+        self.extra.fill(0x3c);
         let p = self.pkt.place(case.pkt.len(), case.pkt_at_end);
         std::ptr::copy_nonoverlapping(case.pkt.as_ptr(), p, case.pkt.len());
         let m = self.mbuff.place(case.mbuff.len(), case.mbuff_at_end);
@@ -609,47 +622,83 @@ impl Runner {
             let stage = &mut sh.stage as *mut u32;
             *stage = (idx * 10 + 1) as u32;
             let (p, m) = self.reset_buffers(case);
+            let extra_base = self.extra.data_start();
             let (pl, ml) = (case.pkt.len(), case.mbuff.len());
             let slot = &mut sh.slots[idx];
+            // half of the cases (a function of the program) create the VM empty, configure helpers
+            // and calculator first, and load the program last: the other legal order of the API
+            let late = crate::engine::fnv(&case.prog) & 4 != 0;
             match case.vm {
-                VmKind::NoData => match rbpf::EbpfVmNoData::new(Some(prog)) {
+                VmKind::NoData => match if late { rbpf::EbpfVmNoData::new(None) } else { rbpf::EbpfVmNoData::new(Some(prog)) } {
                     Err(e) => {
                         slot.status = ST_VERIFIER_ERR;
                         set_msg(slot, &e.to_string());
                     }
                     Ok(mut vm) => {
-                        configure_vm!(vm, case);
-                        run_engine!(vm, engine, case, slot, stage, idx, vm.execute_program(), vm.execute_program_jit(), vm.execute_program_cranelift());
+                        configure_vm!(vm, case, extra_base);
+                        match if late { vm.set_program(prog) } else { Ok(()) } {
+                            Err(e) => {
+                                slot.status = ST_VERIFIER_ERR;
+                                set_msg(slot, &e.to_string());
+                            }
+                            Ok(()) => {
+                                run_engine!(vm, engine, case, slot, stage, idx, vm.execute_program(), vm.execute_program_jit(), vm.execute_program_cranelift());
+                            }
+                        }
                     }
                 },
-                VmKind::Raw => match rbpf::EbpfVmRaw::new(Some(prog)) {
+                VmKind::Raw => match if late { rbpf::EbpfVmRaw::new(None) } else { rbpf::EbpfVmRaw::new(Some(prog)) } {
                     Err(e) => {
                         slot.status = ST_VERIFIER_ERR;
                         set_msg(slot, &e.to_string());
                     }
                     Ok(mut vm) => {
-                        configure_vm!(vm, case);
-                        run_engine!(vm, engine, case, slot, stage, idx, vm.execute_program(sl(p, pl)), vm.execute_program_jit(sl(p, pl)), vm.execute_program_cranelift(sl(p, pl)));
+                        configure_vm!(vm, case, extra_base);
+                        match if late { vm.set_program(prog) } else { Ok(()) } {
+                            Err(e) => {
+                                slot.status = ST_VERIFIER_ERR;
+                                set_msg(slot, &e.to_string());
+                            }
+                            Ok(()) => {
+                                run_engine!(vm, engine, case, slot, stage, idx, vm.execute_program(sl(p, pl)), vm.execute_program_jit(sl(p, pl)), vm.execute_program_cranelift(sl(p, pl)));
+                            }
+                        }
                     }
                 },
-                VmKind::Mbuff { .. } => match rbpf::EbpfVmMbuff::new(Some(prog)) {
+                VmKind::Mbuff { .. } => match if late { rbpf::EbpfVmMbuff::new(None) } else { rbpf::EbpfVmMbuff::new(Some(prog)) } {
                     Err(e) => {
                         slot.status = ST_VERIFIER_ERR;
                         set_msg(slot, &e.to_string());
                     }
                     Ok(mut vm) => {
-                        configure_vm!(vm, case);
-                        run_engine!(vm, engine, case, slot, stage, idx, vm.execute_program(sl(p, pl), sl(m, ml)), vm.execute_program_jit(sl(p, pl), sl(m, ml)), vm.execute_program_cranelift(sl(p, pl), sl(m, ml)));
+                        configure_vm!(vm, case, extra_base);
+                        match if late { vm.set_program(prog) } else { Ok(()) } {
+                            Err(e) => {
+                                slot.status = ST_VERIFIER_ERR;
+                                set_msg(slot, &e.to_string());
+                            }
+                            Ok(()) => {
+                                run_engine!(vm, engine, case, slot, stage, idx, vm.execute_program(sl(p, pl), sl(m, ml)), vm.execute_program_jit(sl(p, pl), sl(m, ml)), vm.execute_program_cranelift(sl(p, pl), sl(m, ml)));
+                            }
+                        }
                     }
                 },
-                VmKind::Fixed { data_off, end_off } => match rbpf::EbpfVmFixedMbuff::new(Some(prog), data_off, end_off) {
+                VmKind::Fixed { data_off, end_off } => match if late { rbpf::EbpfVmFixedMbuff::new(None, data_off, end_off) } else { rbpf::EbpfVmFixedMbuff::new(Some(prog), data_off, end_off) } {
                     Err(e) => {
                         slot.status = ST_VERIFIER_ERR;
                         set_msg(slot, &e.to_string());
                     }
                     Ok(mut vm) => {
-                        configure_vm!(vm, case);
-                        run_engine!(vm, engine, case, slot, stage, idx, vm.execute_program(sl(p, pl)), vm.execute_program_jit(sl(p, pl)), vm.execute_program_cranelift(sl(p, pl)));
+                        configure_vm!(vm, case, extra_base);
+                        match if late { vm.set_program(prog, data_off, end_off) } else { Ok(()) } {
+                            Err(e) => {
+                                slot.status = ST_VERIFIER_ERR;
+                                set_msg(slot, &e.to_string());
+                            }
+                            Ok(()) => {
+                                run_engine!(vm, engine, case, slot, stage, idx, vm.execute_program(sl(p, pl)), vm.execute_program_jit(sl(p, pl)), vm.execute_program_cranelift(sl(p, pl)));
+                            }
+                        }
                     }
                 },
             }
